@@ -23,6 +23,8 @@ Print Assumptions C01_reg_imm.
 
 Theorem C01_stack : forall c, In c sweep_stack -> ok01 c = true.
 Proof. apply forallb_forall. exact sweep_stack_ok. Qed.
+Theorem C01_push_imm : forall c, In c sweep_push_imm -> ok01 c = true.
+Proof. apply forallb_forall. exact sweep_push_imm_ok. Qed.
 Theorem C01_port : forall c, In c sweep_port -> ok01 c = true.
 Proof. apply forallb_forall. exact sweep_port_ok. Qed.
 Print Assumptions C01_port.
